@@ -503,6 +503,9 @@ func main() {
 		for _, cx := range []string{"timeout", "cancel"} {
 			s := base
 			s.Entry, s.N, s.W, s.Fan, s.Ctx = "MapReduce", n, w, 1, cx
+			if cx == "cancel" && !cfg.Thorough() {
+				s.N = 1 // the canceller thread multiplies the schedule space: one item in the quick tier
+			}
 			add(s)
 			s.MapFault, s.MapAt = "stall", 0
 			add(s)
@@ -525,14 +528,17 @@ func main() {
 		{Entry: "MapReduce", N: 2, W: 2, Fan: 1, GenPanic: -1, MapFault: "cancel-err", MapAt: 0, Reducer: "write-early"},
 		{Entry: "MapReduce", N: 2, W: 1, Fan: 1, GenPanic: -1, MapFault: "cancel-err", MapAt: 1, Reducer: "panic"},
 		{Entry: "MapReduce", N: 2, W: 2, Fan: 1, GenPanic: 1, MapFault: "cancel-nil", MapAt: 0},
-		{Entry: "MapReduce", N: 2, W: 2, Fan: 1, GenPanic: -1, MapFault: "cancel-err", MapAt: 0, Ctx: "timeout"},
+		{Entry: "MapReduce", N: 2, W: 1, Fan: 1, GenPanic: -1, MapFault: "cancel-err", MapAt: 0, Ctx: "timeout"},
 		{Entry: "MapReduce", N: 2, W: 1, Fan: 1, GenPanic: -1, MapFault: "cancel-err", MapAt: 1, Ctx: "timeout"},
-		{Entry: "MapReduce", N: 2, W: 2, Fan: 1, GenPanic: -1, MapFault: "cancel-nil", MapAt: 1, Ctx: "timeout"},
-		{Entry: "MapReduce", N: 2, W: 2, Fan: 1, GenPanic: -1, Reducer: "cancel", Ctx: "timeout"},
+		{Entry: "MapReduce", N: 1, W: 2, Fan: 1, GenPanic: -1, MapFault: "cancel-nil", MapAt: 0, Ctx: "timeout"},
+		{Entry: "MapReduce", N: 2, W: 1, Fan: 1, GenPanic: -1, Reducer: "cancel", Ctx: "timeout"},
 		{Entry: "MapReduce", N: 1, W: 1, Fan: 1, GenPanic: -1, MapFault: "cancel-err", MapAt: 0, Ctx: "cancel"},
 	}
 	if cfg.Thorough() {
 		pairs = append(pairs,
+			spec{Entry: "MapReduce", N: 2, W: 2, Fan: 1, GenPanic: -1, MapFault: "cancel-err", MapAt: 0, Ctx: "timeout"},
+			spec{Entry: "MapReduce", N: 2, W: 2, Fan: 1, GenPanic: -1, MapFault: "cancel-nil", MapAt: 1, Ctx: "timeout"},
+			spec{Entry: "MapReduce", N: 2, W: 2, Fan: 1, GenPanic: -1, Reducer: "cancel", Ctx: "timeout"},
 			spec{Entry: "MapReduce", N: 3, W: 2, Fan: 1, GenPanic: -1, MapFault: "panic", MapAt: 2, Reducer: "cancel"},
 			spec{Entry: "MapReduce", N: 3, W: 2, Fan: 2, GenPanic: -1, MapFault: "cancel-err", MapAt: 1, Ctx: "cancel"},
 			spec{Entry: "MapReduceChan", N: 2, W: 2, Fan: 1, GenPanic: -1, MapFault: "panic", MapAt: 0, Ctx: "cancel"},
